@@ -62,6 +62,18 @@ from nested_pandas.series.utils import (
 
 __all__ = ["NestedExtensionArray"]
 
+# Verification hook (add-only, off unless NESTED_PANDAS_VERIF=1): lets an external harness observe
+# every array at birth / storage rebinding. With the variable unset this is a single falsy test.
+import os as _os
+
+_VERIF = _os.environ.get("NESTED_PANDAS_VERIF") == "1"
+_verif_observers: list = []
+
+
+def _verif_observe(site: str, obj) -> None:
+    for _observer in _verif_observers:
+        _observer(site, obj)
+
 
 BOXED_NESTED_EXTENSION_ARRAY_FORMAT_TRICK = True
 """Use a trick to by-pass pandas limitations on extension array formatting
@@ -312,6 +324,8 @@ class NestedExtensionArray(ExtensionArray):
         # https://github.com/apache/arrow/issues/29558
         # self._chunked_array = pa.compute.replace_with_mask(self._chunked_array, pa_mask, value)
         self._chunked_array = replace_with_mask(self._chunked_array, pa_mask, value)
+        if _VERIF:
+            _verif_observe("__setitem__", self)
 
     def __len__(self) -> int:
         return len(self._chunked_array)
@@ -671,6 +685,8 @@ class NestedExtensionArray(ExtensionArray):
 
         self._chunked_array = values
         self._dtype = NestedDtype(values.type)
+        if _VERIF:
+            _verif_observe("__init__", self)
 
     @property
     def _list_array(self) -> pa.ChunkedArray:
@@ -760,6 +776,8 @@ class NestedExtensionArray(ExtensionArray):
             self._validate(pa_array)
         self._chunked_array = pa_array
         self._dtype = NestedDtype(pa_array.type)
+        if _VERIF:
+            _verif_observe("_replace_chunked_array", self)
 
     @property
     def list_offsets(self) -> pa.Array:
